@@ -92,7 +92,18 @@ func lemmaUnit(ld *Loader, cs *ContractSet, l *Lemma) (u *Unit) {
 	st := g.initialState()
 	fc.entry, fc.cur, fc.curReach = st, st, "true"
 	env := &Env{fc: fc, g: g, vars: map[string]Val{}, state: st, oldState: st, bound: map[string]Val{}, pkg: ld.typesPkg(l.Pkg)}
-	t := env.boolExpr(l.Expr)
+	body := l.Expr
+	if body.Kind == "quant" && body.Op == "forall" {
+		// outermost universals become free constants so that a refutation yields witnesses
+		for i, vn := range body.Vars {
+			T, srt := env.resolveType(body.Types[i])
+			c := g.fresh("q."+vn, srt)
+			env.vars[vn] = Val{t: c, ty: T}
+			u.ParamInfo = append(u.ParamInfo, ParamInfo{Name: vn, Term: c, Type: body.Types[i], Sort: srt})
+		}
+		body = body.Args[0]
+	}
+	t := env.boolExpr(body)
 	g.seq++
 	o := &Oblig{Name: "lemma#" + l.Name, Kind: "lemma", Func: "lemma " + l.Name, Pos: ld.fset.Position(0), seq: g.seq, reach: "true", goal: t, Clause: l.Src}
 	o.Pos.Filename, o.Pos.Line = l.File, l.Line
@@ -104,6 +115,3 @@ func lemmaUnit(ld *Loader, cs *ContractSet, l *Lemma) (u *Unit) {
 	return u
 }
 
-func (fc *FnCtx) specialCall(ins ssa.Instruction, callee *ssa.Function, cc *ssa.CallCommon, args []Val, setResult func([]Val)) bool {
-	return false
-}
